@@ -71,6 +71,16 @@ CHECKS["C12"] = dict(
     technique="Lean 4 inductive invariant over an interleaving transition system + schedule-controlled correspondence through verif points",
     design="5/C12", engine="lib")
 
+CHECKS["C17"] = dict(
+    text="Kernel-checked theorems over a model of the credential functions for all byte strings and URL user-infos: the account "
+         "part and the password (value and presence) of the destination are always kept, the worker suffix is appended exactly "
+         "when propagation is on, the destination is not lightning-style (no @ in user, no pplp in host), the miner name is not a "
+         "hex address and has a suffix; both code paths of the authorize handler agree; contract hashrate carries exactly the "
+         "contract address; copying/adjusting a URL changes nothing else. The real functions (lib, proxy, seller watcher) are "
+         "compared with the model on generated names x URLs.",
+    technique="Lean 4 proofs over a functional model + differential correspondence of the real functions",
+    design="5/C17", engine="proxy")
+
 NOT_YET = {}
 
 ALL = ["C%02d" % i for i in range(1, 21)]
